@@ -104,8 +104,15 @@ def handle7 (op : String) (a obs : List String) : Option Verdict :=
       | none => true
     let lenS := field obs "len"
     let asWhole := field obs "outcome" == wholeOutcome && field obs "peer_close" == wholePeer
+    -- a runner that awaits before it decides may forget a complete element when events follow it
+    let atomic := if onSession then Generated.CONTROL_DECISION_ATOMIC_CONNECT else Generated.CONTROL_DECISION_ATOMIC_SETTINGS
+    let forgetPossible : Bool := !atomic && get a 4 != "none" &&
+      (match loopView target cut with
+       | some (content, c) => c == content.length
+       | none => false)
     let model :=
-      if asWhole || !(tearPossible && tornChanges && explained) then
+      if forgetPossible && !asWhole then obs
+      else if asWhole || !(tearPossible && tornChanges && explained) then
         [s!"outcome={wholeOutcome}", s!"peer_close={wholePeer}", s!"len={lenS}"]
       else obs
     let prop := check [("no_trap", !isTrap obs),
